@@ -64,6 +64,10 @@ func c19Attempt(kind, scope string, ck constKind) string {
 		a = "func K() {1}"
 	case "equal-reassign":
 		a = "K = " + ck.lit
+	case "loop-from-own-value":
+		a = `for K = K:K + 3 {println("body", K)}`
+	case "fresh-loop-constant":
+		a = `for FRESHX = 3 {println("fresh", FRESHX)}; del(FRESHX)`
 	case "del-rebind":
 		return "del(K); K = " + ck.lit
 	}
@@ -107,6 +111,17 @@ func c19Judge(in []string, on, off []inObs) string {
 		// an attempt: same error/non-error outcome and same output with registers on and off
 		if on[i].Err != off[i].Err || on[i].Out != off[i].Out {
 			return fmt.Sprintf("attempt %q: registers on out=%q err=%v, off out=%q err=%v", in[i], on[i].Out, on[i].Err, off[i].Out, off[i].Err)
+		}
+		// a constant first bound by a loop keeps its first value: all "fresh <value>" lines are the same
+		fresh := ""
+		for _, ln := range strings.Split(on[i].Out, "\n") {
+			if strings.HasPrefix(ln, "fresh ") {
+				if fresh == "" {
+					fresh = ln
+				} else if ln != fresh {
+					return fmt.Sprintf("attempt %q: a constant bound by the loop's first iteration later evaluated to %q (first %q)", in[i], ln, fresh)
+				}
+			}
 		}
 		// inside a body the name must not evaluate to another value: bodies print "body <value>"
 		for _, ln := range strings.Split(on[i].Out, "\n") {
@@ -202,6 +217,44 @@ func checkC19(c *Ctx) {
 		return
 	}
 	c.Cov("histories", len(seen))
+	// a constant bound for the first time from an integer loop variable / parameter (a register): once bound, every later
+	// evaluation - later iterations, after ++ of the parameter, after other loops reused the register - gives the same value
+	regBound := 0
+	for _, src := range interactionPrograms() {
+		if !strings.Contains(src, "KK") || strings.Contains(src, "KK0") {
+			continue
+		}
+		on, _ := runHistory([]string{src}, RunOpt{})
+		off, _ := runHistory([]string{src}, RunOpt{NoReg: true})
+		c.Case("regbound:"+src, true)
+		regBound++
+		msg := ""
+		if on[0].Out != off[0].Out || on[0].Err != off[0].Err {
+			msg = fmt.Sprintf("registers on out=%q err=%v, off out=%q err=%v", on[0].Out, on[0].Err, off[0].Out, off[0].Err)
+		} else if !on[0].Err {
+			// every line that prints the constant alone shows the same value
+			first := ""
+			for _, ln := range strings.Split(strings.TrimSpace(on[0].Out), "\n") {
+				f := strings.Fields(ln)
+				if len(f) == 0 || ln == "false" || ln == "true" {
+					continue
+				}
+				v := f[0]
+				if first == "" {
+					first = v
+				} else if v != first {
+					msg = fmt.Sprintf("the constant printed %q and later %q in %q", first, v, on[0].Out)
+					break
+				}
+			}
+		}
+		if msg != "" {
+			c.Fail("constant-bound-from-register-changes", msg, map[string]any{"check": "regbound", "inputs": []string{src}})
+		} else {
+			c.AddTraces(1)
+		}
+	}
+	c.Cov("register_bound_constant_programs", regBound)
 }
 
 func indexOfKind(name string) int {
@@ -219,6 +272,12 @@ func replayC19(rp map[string]any) (bool, string) {
 	_ = json.Unmarshal(b, &in)
 	on, _ := runHistory(in, RunOpt{})
 	off, _ := runHistory(in, RunOpt{NoReg: true})
+	if rp["check"] == "regbound" {
+		if on[0] != off[0] {
+			return false, describeDiff(on, off, 1)
+		}
+		return true, "registers on/off agree (the in-run constancy judgement is only made by the check itself)"
+	}
 	if msg := c19Judge(in, on, off); msg != "" {
 		return false, msg
 	}
